@@ -562,7 +562,7 @@ func (c *conn) doShow(x *ast.ShowStmt) (*result, error) {
 	s := c.srv
 	switch x.Tp {
 	case ast.ShowVariables:
-		vars := map[string]string{"auto_increment_increment": "1", "auto_increment_offset": "1", "autocommit": "ON",
+		vars := map[string]string{"auto_increment_increment": itoa(int(s.autoStep())), "auto_increment_offset": "1", "autocommit": "ON",
 			"version": s.version, "tx_isolation": "READ-COMMITTED", "transaction_isolation": "READ-COMMITTED", "lower_case_table_names": "1",
 			"max_allowed_packet": "4194304", "sql_mode": "STRICT_TRANS_TABLES"}
 		names := make([]string, 0, len(vars))
@@ -706,6 +706,7 @@ func (c *conn) doInsert(x *ast.InsertStmt, args []Value) (*result, error) {
 					continue
 				}
 				if vals[i].IsNull() || (vals[i].K == KInt && vals[i].I == 0) {
+					t.autoInc = s.nextAuto(t.autoInc)
 					vals[i] = IntV(t.autoInc)
 					if res.lastID == 0 {
 						res.lastID = t.autoInc
